@@ -12,7 +12,7 @@ package main
 //                                 m types.MalType; c = context first), optionally another spelling
 //     entry  call | ov:<hex>      call.Call, or call.CallOverrideFN with that name
 //     decl   - | a | a,b | a,b,c  the `args ...int` of the registration
-//     beh    ok | err | perr | pval | prt   what the callee does once entered: return, return an error,
+//     beh    ok | err | perr | pwrap | plisp | pval | prt   what the callee does once entered: return, return an error,
 //                                 panic(error), panic(<value>), run-time panic
 //     value  returned by two-result shapes / panicked with
 //   extra (computed by the run, for the model's `aux` verdict; the spec is silent about these):
@@ -197,7 +197,7 @@ func (e *callEngine) generate(r *rng, n int, tier string, emit func(string)) {
 				decl = []int{r.intn(3), r.intn(3), r.intn(3)}
 			}
 		}
-		beh := []string{"ok", "ok", "ok", "ok", "ok", "err", "err", "perr", "pval", "prt"}[r.intn(10)]
+		beh := []string{"ok", "ok", "ok", "ok", "ok", "err", "err", "perr", "pval", "prt", "pwrap", "plisp"}[r.intn(12)]
 		val := genData(r, 2)
 		if val == nil && beh == "pval" {
 			val = 0
@@ -464,7 +464,7 @@ func (e *callEngine) runX(payload string) (obs, extra string) {
 		b.WriteString(" res=err " + class)
 		rv := render(res)
 		errVal = &rv
-		if c.beh != "pval" && c.beh != "prt" || rec.Entered == 0 {
+		if c.beh != "pval" && c.beh != "prt" && c.beh != "pwrap" && c.beh != "plisp" || rec.Entered == 0 {
 			t := err.Error()
 			errText = &t
 		}
@@ -514,6 +514,10 @@ func classifyCallErr(c *callCase, rec *callrec.Rec, err error) string {
 	switch c.beh {
 	case "perr":
 		wraps = errors.Is(err, callrec.ErrPanic)
+	case "pwrap":
+		wraps = errors.Is(err, callrec.ErrWrapLisp)
+	case "plisp":
+		wraps = errors.Is(err, callrec.ErrLisp)
 	case "pval":
 		wraps = render(le.ErrorValue()) == render(c.val)
 	case "prt":
